@@ -39,9 +39,17 @@ Fixpoint fixed_dec (w : nat) (n : N) : bytes :=
   | S w' => digit_char (n / 10 ^ N.of_nat w')%N :: fixed_dec w' (n mod 10 ^ N.of_nat w')%N
   end.
 
+(* the same digits computed the way fmt does it: from the least significant digit, dividing by ten
+   (Proofs/ChunkIdProofs.v: dec_lsb w n [] = fixed_dec w n for n < 10^w) *)
+Fixpoint dec_lsb (w : nat) (n : N) (acc : bytes) : bytes :=
+  match w with
+  | O => acc
+  | S w' => let (q, r) := N.div_eucl n 10 in dec_lsb w' q (digit_char r :: acc)
+  end.
+
 (* unsigned part: zero-padded to [w] digits, all digits when there are more *)
 Definition pad_unsigned (w : nat) (n : N) : bytes :=
-  if (n <? 10 ^ N.of_nat w)%N then fixed_dec w n else dec_of_N n.
+  if (n <? 10 ^ N.of_nat w)%N then dec_lsb w n [] else dec_of_N n.
 
 (* %0<w>d : the sign counts towards the width and comes before the zeros *)
 Definition pad_dec (w : nat) (z : Z) : bytes :=
